@@ -414,3 +414,15 @@ Ltac inst_models f :=
 Ltac by_name tac f :=
   let t := constr:(ltac:(tac; let u := inst_models f in exact u)) in
   let t' := eval cbv zeta in t in exact t'.
+
+(* [L : match loop with Next s' => .. | Return r => .. end]: case analysis on the loop, also where
+   the goal spells the same loop term differently (up to conversion) *)
+Ltac destruct_loop L st r :=
+  match type of L with
+  | match ?t with _ => _ end =>
+    try match goal with
+        | |- context [range_loop ?b0 ?i0 ?l0 ?s0] => progress change (range_loop b0 i0 l0 s0) with t
+        | |- context [for_upto ?a0 ?n0 ?k0 ?b0 ?s0] => progress change (for_upto a0 n0 k0 b0 s0) with t
+        end;
+    destruct t as [st|r]
+  end.
